@@ -861,6 +861,7 @@ func init() {
 			p.Runs = append(p.Runs, schedRun("realtime-counter-slow-listener-b1", 1, rtl("counter"), 0))
 			p.Runs = append(p.Runs, schedRun("realtime-counter-2-b2", 2, rt(2, "counter", false), 0), schedRun("realtime-list-2-b1", 1, rt(2, "list", true), 0))
 		} else {
+			p.Runs = append(p.Runs, schedRun("realtime-counter-slow-listener-b2", 2, rtl("counter"), 0), schedRun("realtime-list-slow-listener-b1", 1, rtl("list"), 0))
 			p.Runs = append(p.Runs, schedRun("realtime-counter-2-b3", 3, rt(2, "counter", true), 0), schedRun("realtime-list-2-b2", 2, rt(2, "list", true), 0), schedRun("realtime-counter-3-b2", 2, rt(3, "counter", false), 0))
 		}
 		return p
